@@ -250,34 +250,41 @@ def checkC09 (c : Case) (t : Transcript) : Option String := Id.run do
   if t.terminal == "spin" then return some "retrying acquisition did not complete (fuel)"
   return none
 
-/-- C08: the blocking acquisitions of a session on a sorting collection happen in increasing
-address order of the units (owned units: by the unit's address). -/
+/-- C08: during a session on a sorting collection, whenever the caller blocks on a lock, every
+lock it holds belongs to a unit with a smaller address (or to the same owned unit): the rank
+discipline with rank = address, which is what makes two sorting acquisitions take their common
+locks in the same relative order. -/
 def checkC08 (c : Case) (t : Transcript) : Option String := Id.run do
   let C : Ctx := { W := c.world, colls := c.colls }
   let rec isSortTop : Shape → Bool
     | .boxed _ | .refc _ => true
     | .poisonable _ s => isSortTop s
     | _ => false
+  let mut st : HSt := {}
   let segs := segments t.evs
   let mut i := 0
   for s in c.prog do
     let seg := segs.getD i []
     i := i + 1
-    match s with
-    | .ses ses =>
-      let S := C.shape ses.coll
-      if isSortTop S && ses.api != .tryLock && ses.api != .scopedTry then
-        let ptrs := getPtrs c.world S
-        let unitAddr (x : LockId) : Nat :=
-          ((ptrs.find? fun p => p.leaves.contains x).map (·.addr)).getD 0
-        let acqs := seg.filterMap fun e => match e with
-          | .raw k x .ok _ => if kindBlocking k then some (unitAddr x) else none
-          | _ => none
-        let rec nondecr : List Nat → Bool
-          | a :: b :: r => a ≤ b && nondecr (b :: r)
-          | _ => true
-        if !nondecr acqs then return some s!"blocking acquisitions out of address order: {acqs}"
-    | _ => pure ()
+    let unitAddr? : Option (LockId → Nat) := match s with
+      | .ses ses =>
+        let S := C.shape ses.coll
+        if isSortTop S then
+          let ptrs := getPtrs c.world S
+          some fun x => ((ptrs.find? fun p => p.leaves.contains x).map (·.addr)).getD 0
+        else none
+      | _ => none
+    for e in seg do
+      match unitAddr?, e with
+      | some ua, .raw k x r _ =>
+        if kindBlocking k && r != .no then
+          let bad := st.held.filter fun (y, _) => ua y > ua x
+          if !bad.isEmpty then
+            return some s!"blocked on lock {x} (unit address {ua x}) while holding {repr bad} of higher address"
+      | _, _ => pure ()
+      match holdStep st e with
+      | .ok s' => st := s'
+      | .error msg => return some msg
   return none
 
 /-- C11: a user panic inside a guard's life or a scoped closure reaches the caller, releases
